@@ -138,7 +138,7 @@ def design(thorough):
         # every action of the design modules must have fired (an action that never fires is a modelling hole)
         import re
         for mod, cfg in (("AggregatorMC", "Aggregator_exh.cfg"), ("ShutdownMC", "Shutdown_exh_drop.cfg"),
-                         ("PoolAggMC", "PoolAgg_exh_small.cfg")):
+                         ("PoolAggMC", "PoolAgg_exh_small2.cfg")):
             r = vlib.tlc(mod, cfg, workers=4, heap="4g", timeout=3000, deadlock=False, coverage=True)
             vlib.tlc_must_pass(r, cfg + " (coverage)")
             acts = re.findall(r"^<(\w+) line \d+, col \d+ to line \d+, col \d+ of module \w+>: (\d+):(\d+)", r.out, re.M)
